@@ -1640,7 +1640,7 @@ impl Node {
         arc_self: &Arc<Node>,
     ) -> Result<(ChannelId, Option<ChannelSlot>), Status> {
         let channel_id = self.keys_manager.get_channel_id();
-        self.find_or_create_channel(channel_id, arc_self)
+        self.find_or_create_channel(channel_id, arc_self, None)
     }
 
     /// Create a new channel from a seed identifier (aka a dbid) and
@@ -1673,7 +1673,7 @@ impl Node {
         }
 
         let channel_id = ChannelId::new_from_peer_id_and_oid(peer_id, dbid);
-        self.find_or_create_channel(channel_id, arc_self)
+        self.find_or_create_channel(channel_id, arc_self, Some(dbid))
     }
 
     /// Create a new channel with a specified channel id.
@@ -1684,18 +1684,31 @@ impl Node {
         channel_id: ChannelId,
         arc_self: &Arc<Node>,
     ) -> Result<(ChannelId, Option<ChannelSlot>), Status> {
-        self.find_or_create_channel(channel_id, arc_self)
+        self.find_or_create_channel(channel_id, arc_self, None)
     }
 
     fn find_or_create_channel(
         &self,
         channel_id: ChannelId,
         arc_self: &Arc<Node>,
+        dbid: Option<u64>,
     ) -> Result<(ChannelId, Option<ChannelSlot>), Status> {
         // Lock order: tracker -> channels (as in setup_channel and get_heartbeat), so the
         // height is read before the channel map is locked.
         let blockheight = arc_self.get_tracker().height();
         let mut channels = self.get_channels();
+        // forget_channel raises the high water mark and removes the channel while it holds
+        // the channel map.  Look at the mark again now that the map is ours, so that an id
+        // forgotten since the caller's check is not created again.
+        if let Some(dbid) = dbid {
+            if self.get_state().dbid_high_water_mark >= dbid {
+                return Err(policy_error(
+                    "policy-channel-original-channel-id-reuse",
+                    format!("original channel id {} is potentially being reused", dbid),
+                )
+                .into());
+            }
+        }
         let policy = self.policy();
         if channels.len() >= policy.max_channels() {
             // FIXME(3) we don't garbage collect channels
